@@ -1034,7 +1034,12 @@ func limitDisclosure(filterResults []constraintsFilterResult,
 				return nil, err
 			}
 
-			credential.SDJWTDisclosures = limitedDisclosures
+			// the credential object is shared with the other input descriptors (and owned by the caller):
+			// limit a copy of it, not the credential itself.
+			limited := *credential
+			limited.SDJWTDisclosures = limitedDisclosures
+			credential = &limited
+			uniqueCredID = tmpID(credential.ID)
 		}
 
 		result = append(result, &credWrapper{uniqueID: uniqueCredID, vc: credential})
